@@ -1055,7 +1055,7 @@ func litestream.(*VFSFile).pollLevel(f, ctx, level, prevMaxTXID, baseCommit) (rm
   loop 0 invariant !replaceIndex ==> (forall k int, p int :: {inIdx(item(itr, k), p)} c18_first <= k && k < c18_first + c18_n && inIdx(item(itr, k), p) ==> has(index, p))
   loop 1 invariant f == old(f) && f.client == old(f.client) && itr != nil && itOK(itr) && it_client[itr] == f.client && it_level[itr] == level && info == item(itr, it_idx[itr] - 1) && it_idx[itr] == c18_first + c18_n && c18_n >= 1
   loop 1 invariant index != nil && fresh(index) && idx != nil && idx != index && newCommit == hcommit(info) && (forall p int :: {has(index, p)} has(index, p) ==> p <= newCommit)
-  loop 1 invariant (forall p int :: {has(idx, p)} has(idx, p) <==> inIdx(info, p)) && (forall p int :: {visited(0)[p]} visited(0)[p] ==> has(index, p))
+  loop 1 invariant (forall p int :: {has(idx, p)} has(idx, p) <==> inIdx(info, p)) && (forall p int :: {visited(1)[p]} visited(1)[p] ==> has(index, p))
   loop 1 invariant (forall p int :: {inIdx(info, p)} inIdx(info, p) ==> has(idx, p))
   loop 1 invariant (forall p int :: {has(index, p)} has(index, p) ==> (exists k int :: {item(itr, k)} c18_first <= k && k < c18_first + c18_n && inIdx(item(itr, k), p)))
   loop 1 invariant !replaceIndex ==> (forall k int, p int :: {inIdx(item(itr, k), p)} c18_first <= k && k < c18_first + c18_n - 1 && inIdx(item(itr, k), p) ==> has(index, p))
@@ -1134,4 +1134,29 @@ func litestream.(*DB).snapshotPosition(db, ctx) (p, err)
   modifies $heap, $alloc, file_closed, pos_verifyErr
   at litestream.(*DB).Pos#1 reset pos_verifyErr = nil
   ensures [C02.snap-end] err == nil ==> p.walEndOffset >= 32 && p.pageSize != 0 && p.db == db
+
+// The page index built at open from the restore plan: every file of the plan is read in plan order, the
+// database size is the one of the last file, no page beyond it stays in the index (F10), and every page of a
+// plan file inside that size is present.
+func litestream.(*VFSFile).buildIndexMap(f, ctx, infos) (index, err)
+  requires f != nil && f.client != nil && (forall i int :: {infos[i]} 0 <= i && i < len(infos) ==> infos[i] != nil)
+  modifies $alloc, f.commit, key("MapDom_map_uint32_ltx_PageIndexElem"), prefix("MapVal_map_uint32_ltx_PageIndexElem")
+  at litestream.FetchPageIndex#1 assert [C18.open-order] $arg1 == f.client && $arg2 == infos[rangeindex] && 0 <= rangeindex && rangeindex < len(infos)
+  at litestream.FetchLTXHeader#1 assert [C18.open-header] $arg1 == f.client && $arg2 == infos[rangeindex]
+  ensures [C18.open-commit] err == nil && len(infos) > 0 ==> f.commit == hcommit(infos[len(infos) - 1])
+  ensures [C18.open-within-commit] err == nil ==> index != nil && (forall p int :: {has(index, p)} has(index, p) ==> p <= f.commit)
+  ensures [C18.open-complete] err == nil ==> (forall i int, p int :: {inIdx(infos[i], p)} 0 <= i && i < len(infos) && inIdx(infos[i], p) && p <= f.commit ==> has(index, p))
+  ensures [C18.open-from-plan] err == nil ==> (forall p int :: {has(index, p)} has(index, p) ==> (exists i int :: {infos[i]} 0 <= i && i < len(infos) && inIdx(infos[i], p)))
+  loop 0 invariant f == old(f) && f.client == old(f.client) && index != nil && fresh(index) && -1 <= rangeindex && rangeindex < len(infos)
+  loop 0 invariant rangeindex >= 0 ==> commit == hcommit(infos[rangeindex])
+  loop 0 invariant (forall i int, p int :: {inIdx(infos[i], p)} 0 <= i && i <= rangeindex && inIdx(infos[i], p) ==> has(index, p))
+  loop 0 invariant (forall p int :: {has(index, p)} has(index, p) ==> (exists i int :: {infos[i]} 0 <= i && i <= rangeindex && inIdx(infos[i], p)))
+  loop 1 invariant f == old(f) && f.client == old(f.client) && index != nil && fresh(index) && idx != nil && idx != index && 0 <= rangeindex && rangeindex < len(infos) && info == infos[rangeindex]
+  loop 1 invariant (forall p int :: {has(idx, p)} has(idx, p) <==> inIdx(info, p)) && (forall p int :: {inIdx(info, p)} inIdx(info, p) ==> has(idx, p)) && (forall p int :: {visited(1)[p]} visited(1)[p] ==> has(index, p))
+  loop 1 invariant (forall i int, p int :: {inIdx(infos[i], p)} 0 <= i && i < rangeindex && inIdx(infos[i], p) ==> has(index, p))
+  loop 1 invariant (forall p int :: {has(index, p)} has(index, p) ==> (exists i int :: {infos[i]} 0 <= i && i <= rangeindex && inIdx(infos[i], p)))
+  loop 2 invariant f == old(f) && index != nil && fresh(index) && (len(infos) > 0 ==> commit == hcommit(infos[len(infos) - 1]))
+  loop 2 invariant (forall p int :: {has(index, p)} has(index, p) && visited(0)[p] ==> p <= commit)
+  loop 2 invariant (forall i int, p int :: {inIdx(infos[i], p)} 0 <= i && i < len(infos) && inIdx(infos[i], p) && p <= commit ==> has(index, p))
+  loop 2 invariant (forall p int :: {has(index, p)} has(index, p) ==> (exists i int :: {infos[i]} 0 <= i && i < len(infos) && inIdx(infos[i], p)))
 */
